@@ -122,10 +122,16 @@ PROPS = {
     ),
     'C02': dict(
         title='extends/isOrExtends equal reachability over current bases, after any rebasing',
-        contracts=[], falsifier='C02', modes=['py', 'c'], level='other',
-        level_text='Bounded only so far: random mixed specification graphs with <=4 re-basings, every pair compared with independent reachability.',
-        level_note='bounded; equal-named distinct interfaces are outside the domain (DESIGN 1.3)',
-        explanation='bounded run-time contract checking of the real code against an executable specification written from the statement; no obligation discharged yet for this property',
+        contracts=['C02_spec'], falsifier='C02', modes=['py', 'c'], level='other',
+        level_text='The dependents bookkeeping is verified from the real bodies: Specification.dependents/subscribe/unsubscribe keep '
+                   'exact positive counts, and Specification.__setBases (the __bases__ setter) leaves the specification subscribed to '
+                   'exactly its new bases with multiplicity (cnt(X, self) == occurrences of X in the new bases, for every X), touches '
+                   'nobody else\'s bookkeeping and notifies itself last -- the invariant that makes every later change reach all '
+                   'dependents. That changed() then recomputes __sro__/_implied of every descendant to graph reachability is checked '
+                   'bounded on random mixed graphs with re-basing histories (all pairs against independent reachability).',
+        level_note='changed()/_calculate_sro are bounded only; weak dependents assumed alive during a call; equal-named distinct '
+                   'interfaces are one key by design.',
+        explanation='subscription invariant of __bases__ assignment proved; recomputation by changed() bounded',
     ),
     'C13': dict(
         title='Specifications pickle by reference and unpickle to the equivalent live object',
